@@ -5,6 +5,14 @@ V = os.path.dirname(os.path.dirname(os.path.abspath(__file__)))
 
 # id -> (technique, level text, level note, design ref)
 CLAIMED = {
+ "C01": ("Lean 4 theorems over a statement-by-statement model of ParseLine and the accessors + the message grammar as an executable Spec + go/ast facts + differential correspondence on Spec-rendered messages",
+         "Machine-checked proofs that all five tag escapes are undone (unescape . escape = id for every value), that Text/Target/Public are consistent with the components of every line, that Copy is field-wise equal and that Raw is kept unchanged; the full round trip (parse (render m) = expected m for every well-formed m) is checked by correspondence on messages generated from the Spec's Msg type and rendered by the Lean driver, with `expected m` compared against the real ParseLine's output [the unbounded round-trip theorem is work in progress, see DESIGN.md]. Tied to the tree by the replacer-pair fact and the pinned bodies of ParseLine, parseUserHost, Copy, Text, Target, Public.",
+         "Trusted: Lean kernel; extractor; harness + driver; Go's strings.Fields/TrimSpace/Index/SplitN as transcribed in lean/Goirc/Go/Strings.lean (Unicode white space recognised by encoding; argued exact in that file, validated on invalid UTF-8); strings.ToUpper on non-ASCII input is a parameter of the model (the harness supplies Go's value).",
+         "6 (C01)"),
+ "C02": ("Lean 4 total model of ParseLine/accessors with explicit guards + theorem that every line is rejected or has consistent accessors + bounded-exhaustive and random differential correspondence including panic/no-panic",
+         "The model of the parser and accessors is a total Lean function with no panic outcome, proved to reject or to yield a line whose accessors are defined and consistent for every byte string; that the Go code agrees - including whether it panics - is checked on every token sequence up to length 3 (4 in thorough) over the property's alphabet, random byte strings and mutations of valid lines. A Go panic is reported as a concrete failing input.",
+         "Trusted: as C01. Panics inside Go's runtime/stdlib and in user Recover functions are outside the model. End-to-end survival over a real connection is covered with the dispatch checks (C03/C16).",
+         "6 (C02)"),
  "C11": ("Lean 4 theorems over the splitMessage model (well-founded recursion; induction) + go/ast facts + differential correspondence",
          "Machine-checked proof (Lean 4, no sorry/axioms beyond propext/Classical.choice/Quot.sound) that the model of splitMessage satisfies the executable C11 predicate for every text and every SplitLen (lossless, bounded, marker, non-empty, default 450); the model is tied to the working tree by regenerated facts (constants, separator table, normalised function bodies) and by a differential run of the real splitMessage against the compiled model, with the Spec predicate also evaluated on the implementation's own output.",
          "Trusted: Lean kernel; the go/ast extractor; the Go harness and compiled driver; Go's strings.LastIndex and slicing as transcribed in lean/Goirc/Go/Bytes.lean. The tie is sampled (counts in the evidence), the theorem is not.",
